@@ -204,6 +204,12 @@ class Sched {
 
   const std::string& status() const { return status_; }
 
+  // number of steps granted so far = index of the next step (callable from an enrolled thread while it runs: nobody else does)
+  long nsteps() {
+    std::unique_lock<std::mutex> lk(mu_);
+    return static_cast<long>(steps_.size());
+  }
+
   // snapshot helpers (call only after run() returned: every thread is parked or finished)
   void print(const std::string& extra = "") {
     printf("steps");
